@@ -140,8 +140,24 @@ def load(cfg='seq', repo=None, verbose=False):
         with open(pk, 'rb') as f:
             return pickle.load(f)
     os.makedirs(cdir, exist_ok=True)
+    # one extractor run per (sources, configuration): concurrent checks wait for the first one and then load its
+    # pickle instead of parsing the same units twice (or tripping over each other's temporary files)
+    import fcntl
+    lock = open(os.path.join(cdir, '.lock'), 'w')
+    fcntl.flock(lock, fcntl.LOCK_EX)
+    try:
+        if os.path.exists(pk):
+            with open(pk, 'rb') as f:
+                return pickle.load(f)
+        return _extract(repo, cfg, cdir, pk, croot, key, verbose)
+    finally:
+        fcntl.flock(lock, fcntl.LOCK_UN)
+        lock.close()
+
+
+def _extract(repo, cfg, cdir, pk, croot, key, verbose):
     us = units(repo)
-    jobs = [(repo, cfg, u, os.path.join(cdir, u.replace('/', '__') + '.json')) for u in us]
+    jobs = [(repo, cfg, u, os.path.join(cdir, '%d.%s.json' % (os.getpid(), u.replace('/', '__')))) for u in us]
     t0 = time.time()
     with concurrent.futures.ThreadPoolExecutor(max_workers=int(os.environ.get('VERIF_JOBS', '16'))) as ex:
         res = list(ex.map(_run_unit, jobs))
@@ -178,9 +194,10 @@ def load(cfg='seq', repo=None, verbose=False):
         db.by_name.setdefault(fn['name'], []).append(fn)
         if fn.get('parent'):
             db.children.setdefault(fn['parent'], []).append(k)
-    with open(pk + '.tmp', 'wb') as f:
+    tmp = '%s.%d.tmp' % (pk, os.getpid())
+    with open(tmp, 'wb') as f:
         pickle.dump(db, f, protocol=pickle.HIGHEST_PROTOCOL)
-    os.replace(pk + '.tmp', pk)
+    os.replace(tmp, pk)
     if verbose:
         print('extracted %d units, %d functions (%s) in %.1fs' %
               (len(us), len(db.functions), cfg, time.time() - t0), file=sys.stderr)
